@@ -127,14 +127,16 @@ pub fn run_reconcile(w: &str) -> i32 {
 fn meta(code: u8) -> Option<FileMeta> {
     match code { 0 => None, 1 => Some(FileMeta { size: 1, mtime: 1 }), 2 => Some(FileMeta { size: 2, mtime: 1 }), _ => Some(FileMeta { size: 1, mtime: 2 }) }
 }
-const PATHS: [&str; 3] = ["a", "d/b", "*a"];
-fn mkm(codes: &[u8]) -> MetaMap {
+// set 0: plain names (and a glob metacharacter); sets 1, 2: a directory next to siblings whose names extend it with a byte below
+// '/' - where component order (PathBuf's Ord, the maps' order) and byte order of the rendered path disagree
+const PATHS: [[&str; 3]; 3] = [["a", "d/b", "*a"], ["r/q", "r.txt", "r-old/q"], ["v1/x", "v1 b/x", "v1.1"]];
+fn mkm(codes: &[u8], set: usize) -> MetaMap {
     let mut m = MetaMap::new();
-    for (i, &c) in codes.iter().enumerate() { if let Some(x) = meta(c) { m.insert(PathBuf::from(PATHS[i]), x); } }
+    for (i, &c) in codes.iter().enumerate() { if let Some(x) = meta(c) { m.insert(PathBuf::from(PATHS[set % 3][i]), x); } }
     m
 }
-fn check_plan(s: &[u8], d: &[u8], ex: &[String], del: bool) -> Option<String> {
-    let (ms, md) = (mkm(s), mkm(d));
+fn check_plan(s: &[u8], d: &[u8], ex: &[String], del: bool, set: usize) -> Option<String> {
+    let (ms, md) = (mkm(s, set), mkm(d, set));
     let got = build_plan(&ms, &md, ex, del);
     let mut transfer = vec![]; let mut skipped = 0usize; let mut delete = vec![];
     for (p, m) in &ms {
@@ -145,19 +147,19 @@ fn check_plan(s: &[u8], d: &[u8], ex: &[String], del: bool) -> Option<String> {
     if del { for p in md.keys() { if !ms.contains_key(p) && !ex_ref(&p.to_string_lossy(), ex) { delete.push(p.clone()); } } }
     transfer.sort(); delete.sort();
     if got.transfer != transfer || got.skipped != skipped || got.delete != delete {
-        Some(format!("build_plan(src={s:?}, dst={d:?}, excludes={ex:?}, delete={del}) = transfer {:?} skipped {} delete {:?}; the set definition gives transfer {:?} skipped {} delete {:?}", got.transfer, got.skipped, got.delete, transfer, skipped, delete))
+        Some(format!("build_plan(src={s:?}, dst={d:?} over the paths {:?}, excludes={ex:?}, delete={del}) =", PATHS[set % 3]).replace(") =", ")") + &format!(" = transfer {:?} skipped {} delete {:?}; the set definition gives transfer {:?} skipped {} delete {:?}", got.transfer, got.skipped, got.delete, transfer, skipped, delete))
     } else { None }
 }
 pub fn search_plan() -> i32 {
     let exs: Vec<Vec<String>> = vec![vec![], vec!["a".into()], vec!["d".into()], vec!["*".into()], vec!["d/*".into()], vec!["?a".into(), "b".into()]];
     for n in 0..(4u32.pow(6)) {
         let c: Vec<u8> = (0..6).map(|k| ((n / 4u32.pow(k)) % 4) as u8).collect();
-        for (ei, ex) in exs.iter().enumerate() { for del in [false, true] {
-            if let Some(what) = check_plan(&c[0..3], &c[3..6], ex, del) {
-                println!("WITNESS {{\"kind\":\"build_plan\",\"src\":\"{}{}{}\",\"dst\":\"{}{}{}\",\"ex\":{},\"del\":{},\"what\":\"{}\"}}", c[0], c[1], c[2], c[3], c[4], c[5], ei, del as u8, what.replace('"', "'"));
+        for set in 0..3usize { for (ei, ex) in exs.iter().enumerate() { for del in [false, true] {
+            if let Some(what) = check_plan(&c[0..3], &c[3..6], ex, del, set) {
+                println!("WITNESS {{\"kind\":\"build_plan\",\"src\":\"{}{}{}\",\"dst\":\"{}{}{}\",\"ex\":{},\"del\":{},\"set\":\"{set}\",\"what\":\"{}\"}}", c[0], c[1], c[2], c[3], c[4], c[5], ei, del as u8, what.replace('"', "'"));
                 return 1;
             }
-        }}
+        }}}
     }
     0
 }
@@ -166,7 +168,8 @@ pub fn run_plan(w: &str) -> i32 {
     let d = |k: &str| -> Vec<u8> { json_str(w, k).unwrap_or_default().bytes().map(|c| c - b'0').collect() };
     let ei: usize = json_str(w, "ex").and_then(|s| s.parse().ok()).unwrap_or(0);
     let del = json_str(w, "del").unwrap_or_default() == "1";
-    match check_plan(&d("src"), &d("dst"), &exs[ei.min(exs.len() - 1)], del) {
+    let set: usize = json_str(w, "set").and_then(|s| s.parse().ok()).unwrap_or(0);
+    match check_plan(&d("src"), &d("dst"), &exs[ei.min(exs.len() - 1)], del, set) {
         Some(what) => { println!("REPRODUCED: {what}"); 1 }
         None => { println!("not reproduced"); 0 }
     }
